@@ -118,6 +118,21 @@ def run_ops(nm, mk):
     out.add("interp-metric_weighted", lambda: grid.interp(da, X, metric_weighted=X), nm)
     out.add("interp-metric_weighted-2", lambda: grid.interp(da, Y, metric_weighted=[X, Y]), nm)
     out.add("keep_coords", lambda: grid.diff(da, Y, keep_coords=True), nm)
+    # the axis set of a metric given as a bare axis name (the documented short spelling), at construction and afterwards
+    g2 = Out()
+    g2.add("grid-metric-keys-as-bare-names", lambda: xgcm.Grid(ds, coords=coords, periodic=False, boundary="extend",
+                                                               metrics={X: [nm["M1"], nm["M1L"]], Y: [nm["M2"]]}, autoparse_metadata=False), nm)
+    out.extend(g2)
+    if g2.last is not None:
+        grid2 = g2.last
+        out.add("integrate-on-bare-key-grid", lambda: grid2.integrate(da, [X, Y]), nm)
+        out.add("get_metric-on-bare-key-grid", lambda: grid2.get_metric(da, (Y,)), nm)
+
+    def reregister():
+        grid.set_metrics(X, nm["M1L"], overwrite=True)
+        grid.set_metrics(Y, [nm["M2"]], overwrite=True)
+        return grid.integrate(da, [Y, X])
+    out.add("set_metrics-bare-name-then-integrate", reregister, nm)
     return out
 
 
